@@ -75,6 +75,12 @@ def run_witnesses(rep, prop):
         rep.extra.setdefault("witnesses_reached", []).append(f"{cfgname}:{inv}")
 
 
+# the naive policy never suspends: its share of pre-emption scenarios goes to DAGs whose branches run side by side on several pools
+FLAVOURS = {"C17": (("mixed", 0.4), ("tiny", 0.15), ("branchy", 0.35), ("herd", 0.1)),
+            "C08": (("mixed", 0.4), ("tiny", 0.15), ("preempt", 0.2), ("herd", 0.1), ("branchy", 0.15)),
+            "C18": (("mixed", 0.4), ("tiny", 0.15), ("preempt", 0.15), ("herd", 0.1), ("branchy", 0.2))}
+
+
 def validate(traces, rep, prop, *, step=False):
     files = common.write_shards(traces, common.NCPU, "sched")
     mon = common.run_monitor("TraceSched", "TraceSched.cfg", files)
@@ -121,7 +127,10 @@ def run(prop, tier, extra=None):
     if extra is not None:
         extra(rep, tier)
     traces = driver_sched.gen_traces(NTRACES[tier], common.seed() + hash(prop) % 1000 if False else common.seed() + int(prop[1:]) * 101,
-                                     policies=POLICIES[prop])
+                                     policies=POLICIES[prop], flavours=FLAVOURS.get(prop, driver_sched.DEFAULT_FLAVOURS))
+    if prop == "C18":
+        # more than a thousand pipelines known to one overbook scheduler, a few of them killed again and again while a flood of tiny ones arrives
+        traces += driver_sched.gen_special("flood", 8 if tier == "quick" else 64, common.seed() + 1818, 3 * 10**6)
     if prop == "C08":
         # random VALID configurations through the unmodified run_simulator with the real generator: durations below one tick, tick rates up to
         # 100000, 1-cpu and sub-GB pools, probability triples with zeros and awkward decimals, all policies (obs mode, sparse)
@@ -160,7 +169,8 @@ def replay(prop, path):
     if rp.get("kind") != "driverA":
         raise MachineryError("replay file has no driver-A scenario")
     rep = Report(prop, "quick")
-    tr = driver_sched.run_scenario(rp["seed"], 0, rp["policy"], rp.get("flavour") or "mixed")
+    special = {"flood": driver_sched.flood_run, "crowd": driver_sched.crowd_run, "long": driver_sched.long_run}.get(rp.get("flavour"))
+    tr = special(rp["seed"], 0) if special else driver_sched.run_scenario(rp["seed"], 0, rp["policy"], rp.get("flavour") or "mixed")
     mon, mon2, owners = validate([tr], rep, prop, step=(prop == "C08"))
     print(f"replay: {len(mon.viols)} contract clause(s) fired, by owner {dict(owners)}")
     for v in mon.viols[:10]:
